@@ -3,16 +3,34 @@
 //!   cvharness gen <component> <seed> <tier>      ops lines -> stdout
 //!   cvharness run                                 ops lines on stdin -> implementation outputs on stdout
 //!   cvharness oracle <component> <seed> <tier>    implementation-level oracles; failures -> stdout
+#![allow(unused)]
 mod util;
 mod rawmodel;
-mod ans;
-mod range;
-mod chain;
-mod cat;
-mod quant;
-mod bits;
-mod huff;
-mod backend;
+
+/// A component module, or an inert stand-in when its cargo feature is off.
+macro_rules! component {
+    ($name:ident, $feat:literal) => {
+        #[cfg(feature = $feat)]
+        mod $name;
+        #[cfg(not(feature = $feat))]
+        mod $name {
+            use crate::util::*;
+            pub fn run(_segs: &[Vec<&str>]) -> String {
+                "bad-op".into()
+            }
+            pub fn gen(_rng: &mut Rng, _tier: &str, _out: &mut Vec<String>) {}
+            pub fn oracle(_rng: &mut Rng, _tier: &str, _rep: &mut Report) {}
+        }
+    };
+}
+component!(ans, "ans");
+component!(range, "range");
+component!(chain, "chain");
+component!(cat, "cat");
+component!(quant, "quant");
+component!(bits, "bits");
+component!(huff, "huff");
+component!(backend, "backend");
 
 use std::io::{BufRead, Write};
 use util::*;
